@@ -81,13 +81,16 @@ ObsEq(form, a, b) == form \in Forms /\ obs' = [k |-> "eq", out |-> (EncodeSpec(r
 ObsIsIdentity(pred, a) == pred \in Forms /\ obs' = [k |-> "isid", out |-> (EncodeSpec(reg[a]) = NZero)] /\ UNCHANGED <<reg, hseen>>
 \* observations made DIRECTLY on the affine point an affine-typed operator returned (no conversion in between):
 \* identity predicates / equality with the identity constants / hash coherence, and the compressed serialisation
+AffineOps == {"add", "sub", "conv", "neg", "zero"}
+AffineResult(op, a, b) == CASE op = "add" -> EAdd(reg[a], reg[b]) [] op = "sub" -> ESub(reg[a], reg[b])
+                            [] op = "conv" -> reg[a] [] op = "neg" -> ENeg(reg[a]) [] OTHER -> EId
 ObsAffineId(op, form, pred, a, b) ==
-  LET res == IF op = "add" THEN EAdd(reg[a], reg[b]) ELSE ESub(reg[a], reg[b]) IN
-  /\ op \in {"add", "sub"} /\ form \in Forms /\ pred \in Forms
+  LET res == AffineResult(op, a, b) IN
+  /\ op \in AffineOps /\ form \in Forms /\ pred \in Forms
   /\ obs' = [k |-> "aobs", out |-> (EncodeSpec(res) = NZero)] /\ UNCHANGED <<reg, hseen>>
 ObsAffineEnc(op, form, a, b) ==
-  LET res == IF op = "add" THEN EAdd(reg[a], reg[b]) ELSE ESub(reg[a], reg[b]) IN
-  /\ op \in {"add", "sub"} /\ form \in Forms
+  LET res == AffineResult(op, a, b) IN
+  /\ op \in AffineOps /\ form \in Forms
   /\ obs' = [k |-> "aenc", out |-> EncodeBytes(res)] /\ UNCHANGED <<reg, hseen>>
 \* hashing: no fixed digest is specified, only coherence with equality
 ObsHash(ty, a, h) ==
